@@ -45,5 +45,7 @@ SEEDED = [
     ("C17-9", "C17-TREE"),
     ("C17-10", "C17-N5"),
     ("C17-11", "C17-N4"),
+    ("C17-12", "C17-N5"),
+    ("C17-13", "C17-N5"),
 ]
 MUTANTS = list(MUTANTS) + [_P("seed-" + sid, _os.path.join(_SEEDS, sid, "patch.diff"), rule) for sid, rule in SEEDED if _os.path.exists(_os.path.join(_SEEDS, sid, "patch.diff"))]
